@@ -2,9 +2,12 @@
 
 Nothing here calls nsf.init, nsf.fix_number, util.parse_uncertainty,
 nsf.energy_dependent_init, nsf.neutron_wavelength, np.interp or any formula
-code.  The embedded strings nsf.nsftable / nsf.nsftableI and the *source text*
-of nsf_tables.py are taken as data from the tree under test and read with
-regular expressions; physical constants are read from periodictable.constants
+code.  The embedded strings nsf.nsftable / nsf.nsftableI (public data) are taken
+from the tree under test and read with regular expressions; the energy tables
+are the public data nsf_tables.ENERGY_DEPENDENT_TABLES, cross-read from the
+*source text* of nsf_tables.py where that text has the layout the reader knows
+(optional: another layout only switches the cross-reading off);
+physical constants are read from periodictable.constants
 (data, cross-pinned by C04); masses, abundances and densities come from
 pvmon.ref.masses.MassModel.
 
@@ -28,6 +31,18 @@ Public API (used by C07, C03; C04/C16/C17 may import it):
     m.reference_with_floors(...) -> (seven values, seven absolute floors)   see docstring
     compare7(got7, ref7, floors7, rel=1e-10) -> list of (index, name, got, want, relerr) that disagree
     ArgumentGuard.install(nsf)  input-immutability monitor for the wavelength / energy arguments (C03, C04)
+
+Optional instrumentation of PRIVATE parts of the library (notes/ROBUSTNESS_GUIDE.md; C03, C04, C07, C16, C17):
+
+    anchor_missing(ctx, what, requirements, why)      waive reach requirements whose private anchor is not there
+    private(ctx, owner, name, requirements)           getattr(owner, name, None) + anchor_missing when absent
+    tolerant(orig, names, judged, counters, label)    *args/**kw wrapper of a private function: the call is handed
+                                                      to judged(values..., _call) when its arguments can be bound to
+                                                      *names*, else passed through un-judged and counted
+    function_of(obj)                                  function object (with __code__) behind a callable, or None
+    watch_entry / watch_lines(ctx, reach, ...)        entry / line counters that never stop a check
+    waive_if_bypassed(ctx, counter, public_counter)   a private helper that the public entry points of this tree
+                                                      do not enter is evidence only
 """
 import bisect
 import math
@@ -139,28 +154,55 @@ class NeutronModel(object):
             self.imag_rows.append((Z, A))
 
     def _read_energy(self, nsf_tables):
-        path = nsf_tables.__file__
-        if path.endswith(('.pyc', '.pyo')):
-            path = path[:-1]
-        src = open(path).read()
+        """Energy tables: the public data nsf_tables.ENERGY_DEPENDENT_TABLES {(symbol, A | None): [[E, re, im, abs]]}
+        is the specification.  Where the literal can also be read from the SOURCE TEXT of nsf_tables.py (own regular
+        expressions) the two are compared (`energy_source_matches_literal`: True / False); how the module writes its
+        data down is its own business, so a source that is absent or has another layout (no key found, other keys,
+        other row counts) only switches that integrity check off (`energy_source_matches_literal` None,
+        `energy_source_note` says why) and the in-memory data are used alone."""
         sym2z = {s: z for z, s in self.symbol.items()}
-        keys = list(_EKEY.finditer(src))
-        self.energy = {}
-        self.energy_order = []
-        for i, m in enumerate(keys):
-            end = keys[i + 1].start() if i + 1 < len(keys) else len(src)
-            body = src[m.end():end]
-            rows = [tuple(float(x) for x in r.groups()) for r in _EROW.finditer(body)]
-            k = (sym2z[m.group('sym')], 0 if m.group('A') == 'None' else int(m.group('A')))
-            self.energy[k] = rows
-            self.energy_order.append(k)
+        live = {}
+        order = []
+        for (sym, A), rows in nsf_tables.ENERGY_DEPENDENT_TABLES.items():
+            k = (sym2z[sym], int(A or 0))
+            live[k] = [tuple(float(x) for x in r) for r in rows]
+            order.append(k)
+        from_source = None
+        try:
+            path = nsf_tables.__file__
+            if path.endswith(('.pyc', '.pyo')):
+                path = path[:-1]
+            with open(path) as fid:
+                src = fid.read()
+            keys = list(_EKEY.finditer(src))
+            from_source, source_order = {}, []
+            for i, m in enumerate(keys):
+                end = keys[i + 1].start() if i + 1 < len(keys) else len(src)
+                body = src[m.end():end]
+                rows = [tuple(float(x) for x in r.groups()) for r in _EROW.finditer(body)]
+                k = (sym2z[m.group('sym')], 0 if m.group('A') == 'None' else int(m.group('A')))
+                from_source[k] = rows
+                source_order.append(k)
+            same_layout = (bool(from_source) and set(from_source) == set(live)
+                           and all(len(from_source[k]) == len(live[k]) for k in live))
+            if not same_layout:
+                self.energy_source_note = ('the source text of nsf_tables.py does not hold the literal in the layout the '
+                                           'reader knows (%d keys found, %d in memory)' % (len(from_source), len(live)))
+                from_source = None
+        except Exception as exc:          # no file, unreadable, other symbols, ...: the reader is optional
+            self.energy_source_note = 'the source text of nsf_tables.py could not be read (%s: %s)' % (type(exc).__name__, exc)
+            from_source = None
+        if from_source is not None:
+            self.energy, self.energy_order = from_source, source_order
+            self.energy_source = 'source text of nsf_tables.py'
+            self.energy_source_note = None
+            # the in-memory literal must be the same data as the source text (integrity of the reader)
+            self.energy_source_matches_literal = all(live[k] == from_source[k] for k in live)
+        else:
+            self.energy, self.energy_order = live, order
+            self.energy_source = 'nsf_tables.ENERGY_DEPENDENT_TABLES in memory'
+            self.energy_source_matches_literal = None
         self.energy_nodes = sum(len(v) for v in self.energy.values())
-        # the in-memory literal must be the same data as the source text (integrity of the reader)
-        live = nsf_tables.ENERGY_DEPENDENT_TABLES
-        self.energy_source_matches_literal = (
-            len(live) == len(self.energy)
-            and all([tuple(float(x) for x in r) for r in live.get((self.symbol[k[0]], k[1] or None), [])]
-                    == self.energy[k] for k in self.energy))
 
     # ---------------------------------------------------------------- records
     def _build_records(self):
@@ -483,3 +525,124 @@ class ArgumentGuard(object):
         N.scattering_by_wavelength = g.guard(N.scattering_by_wavelength, 'Neutron.scattering_by_wavelength',
                                              positional={1: 'wavelength'})
         return g
+
+
+# ---------------------------------------------------------------------- optional instrumentation of private parts
+def anchor_missing(ctx, what, requirements=(), why='is not present in this source tree'):
+    """Instrumentation of a PRIVATE part of the library is optional: the reach requirements that depend on it are
+    waived (the CLI skips a requirement whose `anchor_missing.<counter>` is non-zero) and the fact is noted."""
+    requirements = [requirements] if isinstance(requirements, str) else list(requirements)
+    for r in requirements:
+        ctx.count('anchor_missing.' + r)
+    ctx.note('optional instrumentation skipped: %s %s%s'
+             % (what, why, ('; waived: ' + ', '.join(requirements)) if requirements else ''))
+
+
+def private(ctx, owner, name, requirements=()):
+    """getattr(owner, name, None) for a private name; absent -> the requirements are waived with a note."""
+    obj = getattr(owner, name, None)
+    if obj is None:
+        anchor_missing(ctx, '%s.%s' % (getattr(owner, '__name__', owner), name), requirements)
+    return obj
+
+
+def function_of(obj):
+    """The plain function (an object with __code__) behind a function, a decorated function, a bound method, a
+    property or an instance of a class with __call__ (a calculator object); None when there is none."""
+    import inspect
+    try:
+        if isinstance(obj, property):
+            obj = obj.fget
+        if isinstance(obj, (staticmethod, classmethod)):
+            obj = obj.__func__
+        if callable(obj):
+            obj = inspect.unwrap(obj)
+        obj = getattr(obj, '__func__', obj)
+        if getattr(obj, '__code__', None) is not None:
+            return obj
+        if obj is not None and not inspect.isclass(obj):
+            call = getattr(type(obj), '__call__', None)
+            call = inspect.unwrap(call) if callable(call) else call
+            if getattr(call, '__code__', None) is not None:
+                return call
+    except Exception:
+        pass
+    return None
+
+
+def watch_entry(ctx, reach, obj, label, requirements=None):
+    """Entry counter `reach.<label>` on the code object of *obj*; None / no code object -> waived, noted."""
+    f = function_of(obj) if obj is not None else None
+    if f is None:
+        anchor_missing(ctx, 'entry counter %s' % label, ['reach.' + label] if requirements is None else requirements,
+                       why='has no code object to watch in this source tree')
+        return False
+    reach.watch(f, label)
+    return True
+
+
+def watch_lines(ctx, reach, obj, texts, label):
+    """Line counter `reach.<label>` on the first source line of *obj* that contains one of *texts*.  A source that
+    is not available or no longer contains any of them never stops a check: the label goes to reach.missing,
+    Reach.export() then reports `anchor_missing.reach.<label>` and the CLI waives the requirement."""
+    f = function_of(obj) if obj is not None else None
+    if f is not None:
+        for text in texts:
+            try:
+                reach.watch_line_matching(f, text, label)
+            except Exception:                 # OSError / TypeError: no source text; LookupError: older statemon
+                continue
+            if label in reach.lines.values():
+                reach.missing.discard(label)
+                return True
+    reach.missing.add(label)
+    return False
+
+
+def tolerant(orig, names, judged, counters, label):
+    """Wrapper (*args, **kw) of the private function *orig*.  When the arguments of a call can be bound to the
+    parameter names *names* of the signature *orig* has in this tree, the call goes through
+    judged(<values of names>..., _call=<the pending call>) - typically an icontract-decorated adapter of fixed
+    signature that returns _call().  Otherwise (renamed / regrouped parameters) the call is passed through un-judged
+    and counted in counters[label + '.unrecognised_call']."""
+    import functools
+    import inspect
+    try:
+        sig = inspect.signature(orig)
+        if not all(n in sig.parameters for n in names):
+            sig = None
+    except (TypeError, ValueError):
+        sig = None
+
+    @functools.wraps(orig)
+    def tolerant_call(*args, **kw):
+        values = None
+        if sig is not None:
+            try:
+                bound = sig.bind(*args, **kw)
+                bound.apply_defaults()
+                values = [bound.arguments[n] for n in names]
+            except (TypeError, KeyError):
+                values = None
+        if values is None:
+            counters[label + '.unrecognised_call'] += 1
+            return orig(*args, **kw)
+        return judged(*values, _call=functools.partial(orig, *args, **kw))
+
+    tolerant_call._pvmon_original = orig
+    tolerant_call._pvmon_recognised = sig is not None
+    return tolerant_call
+
+
+def waive_if_bypassed(ctx, counter, public_counter, what=None):
+    """A counter of entries into a PRIVATE helper proves reach only as long as the public entry points go through
+    that helper.  When this shard ran the public entry point (`public_counter` > 0) and never entered the helper,
+    the helper is bypassed (merged, replaced, cached) in this tree: the requirement on it is waived with a note;
+    what the public entry points return is judged by the oracle all the same."""
+    if ctx.counters.get(counter, 0) == 0 and ctx.counters.get(public_counter, 0) > 0 \
+            and not ctx.counters.get('anchor_missing.' + counter, 0):
+        anchor_missing(ctx, what or counter, [counter],
+                       why='was never entered although %s = %d: the public entry points of this tree do not go '
+                           'through it' % (public_counter, ctx.counters.get(public_counter, 0)))
+        return True
+    return False
